@@ -8,7 +8,8 @@ RULE = ("for every base tuple (key length x AAD length x ciphertext length): the
         "of the key (all bits), every bit of ciphertext and AAD when <= 17 bytes else all bits of the first, last and 16-byte-boundary bytes, "
         "truncation/extension by one byte, moving a byte across the AAD/ciphertext boundary in both directions, swapping AAD and ciphertext, zero tag, "
         "tag of the swapped-length tuple; each case is decided by the one-shot decryptor and by the incremental decryptor in two chunkings (the split one continuing on clones taken in the AAD phase and in the data phase); the "
-        "expected verdict is computed: accept iff supplied tag == model tag of exactly the supplied inputs; non-trivial = mutated case; distinct = program text")
+        "expected verdict is computed: accept iff supplied tag == model tag of exactly the supplied inputs; non-trivial = mutated case; distinct = program text"
+        " Also: the split incremental interface continues on clones taken in the AAD phase and in the data phase; component shards as in C06; the corpus again on the checked-arithmetic and native builds.")
 ASSUMPTIONS = ["python RFC 8439 AEAD model as in C06", "ciphertext/AAD content from the pattern alphabet; bit positions beyond the first/last/boundary bytes of long inputs are not flipped"]
 
 
